@@ -6,6 +6,7 @@ import (
 	"os"
 	"os/exec"
 	"strings"
+	"syscall"
 )
 
 // headWriter keeps the first max bytes written to it.
@@ -43,6 +44,7 @@ func SuperviseSelf(prop string) {
 	cmd := exec.Command(os.Args[0], os.Args[1:]...)
 	cmd.Env = append(os.Environ(), "VERIF_SUPERVISED=1")
 	cmd.Stdin, cmd.Stdout = os.Stdin, os.Stdout
+	cmd.SysProcAttr = &syscall.SysProcAttr{Pdeathsig: syscall.SIGKILL} // the child never outlives a killed supervisor
 	head := &headWriter{max: 256 << 10}
 	cmd.Stderr = io.MultiWriter(os.Stderr, head)
 	err := cmd.Run()
